@@ -2,7 +2,10 @@
    0 direct pool, concurrent dispatcher threads, phases (gaps let workers retire)
    1 forced window at sched_point(10)
    2 proactors sharing one pool (panicking jobs)
-   3 Runtime::spawn_blocking"""
+   3 Runtime::spawn_blocking
+   4 k jobs finishing together while the driver sleeps in poll (result delivery wake-up)
+Second part (harness/ext/src/bin/c17d.rs, class D below): a compio_dispatcher::Dispatcher
+whose worker runtimes and dispatch_blocking share one pool."""
 import random
 
 TMO = [0, 1, 1, 2, 3, 5, 10, 20, 50]
@@ -60,6 +63,15 @@ def gen_runtime(rng):
     return case
 
 
+def gen_wake(rng, thorough=False):
+    k = rng.choice([2, 2, 3, 4])
+    l = rng.choice([k, k, k + 1, 4]) if k < 4 else 4
+    l = max(l, k)
+    rounds = rng.choice([300, 500, 800]) if thorough else rng.choice([150, 200, 300])
+    # drv 0 = io_uring (the important one)
+    return [4, l, rng.choice([20, 50, 100]), rng.choice([0, 0, 0, 1]), k, rounds, rng.choice([0, 0, 100, 500, 1000, 2000])]
+
+
 def gen_adversarial(rng):
     k = rng.randrange(5)
     if k == 0:
@@ -77,16 +89,19 @@ def gen_adversarial(rng):
 def generate(seed, n):
     rng = random.Random(seed * 7919 + 17)
     out = []
+    thorough = n > 1000
     for _ in range(n):
         r = rng.random()
-        if r < 0.55:
+        if r < 0.50:
             out.append(gen_direct(rng))
-        elif r < 0.65:
+        elif r < 0.60:
             out.append(gen_window(rng))
-        elif r < 0.85:
+        elif r < 0.78:
             out.append(gen_proactors(rng))
-        elif r < 0.96:
+        elif r < 0.88:
             out.append(gen_runtime(rng))
+        elif r < 0.96:
+            out.append(gen_wake(rng, thorough))
         else:
             out.append(gen_adversarial(rng))
     return out
@@ -104,6 +119,8 @@ def describe(case):
         return "proactors/%s/L%d/R%d" % ("uring" if case[4] == 0 else "poll", case[1], case[3])
     if m == 3:
         return "runtime/L%d" % case[1]
+    if m == 4 and len(case) > 5:
+        return "wake/%s/k%d" % ("uring" if case[3] == 0 else "poll", case[4])
     return "malformed"
 
 
@@ -114,3 +131,55 @@ def nontrivial(case, out):
     n = out[0]
     kinds = out[1:1 + 3 * n:3]
     return 5 in kinds and 8 in kinds and 9 in kinds
+
+
+class D:
+    """cases of the dispatcher part: [L; tmo_ms; W; concurrent; join_mode; S; njobs; (path dur_us panics)*]"""
+
+    @staticmethod
+    def gen_case(rng):
+        l = rng.choice([1, 1, 2, 2, 3, 4])
+        tmo = rng.choice([1, 5, 10, 20, 50])
+        w = rng.choice([1, 2, 2, 3, 4])
+        conc = rng.choice([0, 1, 1])
+        jm = rng.choice([0, 0, 0, 1, 2])
+        s = rng.choice([1, 1, 2])
+        nj = rng.randrange(2, 10)
+        case = [l, tmo, w, conc, jm, s, nj]
+        budget = 60000
+        for _ in range(nj):
+            path = rng.choice([0, 0, 1])
+            if jm == 1 and path == 1:
+                dur = rng.choice([10000, 20000, 30000])     # still running when join is called
+            else:
+                dur = rng.choice([500, 1000, 3000, 5000, 8000])
+            if dur > budget:
+                dur = 200
+            budget -= dur
+            panics = 1 if (path == 0 and rng.random() < 0.2) else 0
+            case += [path, dur, panics]
+        return case
+
+    @staticmethod
+    def generate(seed, n):
+        rng = random.Random(seed * 104729 + 5)
+        out = []
+        for _ in range(n):
+            if rng.random() < 0.04:
+                out.append(rng.choice([[0, 5, 1, 1, 0, 1, 0], [1, 5, 9, 1, 0, 1, 0], [1, 5, 1, 1, 0, 1, 1, 1, 100, 1], [2, 5, 2]]))
+            else:
+                out.append(D.gen_case(rng))
+        return out
+
+    @staticmethod
+    def describe(case):
+        if len(case) < 7:
+            return "malformed"
+        return "disp/L%d/W%d/%s/join%d" % (case[0], case[2], "conc" if case[3] else "seq", case[4])
+
+    @staticmethod
+    def nontrivial(case, out):
+        if not out or out[0] == 99999 or len(out) < 12:
+            return False
+        # several jobs over both paths, or a replayed pool history
+        return len(case) >= 7 and case[6] >= 2
